@@ -103,6 +103,8 @@ type cont interface {
 	slice(a, b int) (cont, error)
 	appendScalar(x, how int) (cont, error)
 	appendVector(w []int, how int) (cont, error)
+	appendObj(w cont) (cont, error)                            // v.AppendVector(w), w a vector with its own history
+	viewWalk(r0, r1, c0, c1, fi, fj, how int) ([][]int, error) // matrix views only
 	arith(name string, w []int, x int, operand string) error
 	iterFrom(from int, how int) (iter, error)
 	walk(how int) ([][]int, error)
@@ -232,17 +234,64 @@ func (c *vecCont) appendScalar(x, how int) (cont, error) {
 	return &vecCont{c.t, c.v.AppendScalar(s), c.concrete}, nil
 }
 
+// operandHistory gives a freshly built sparse operand a content-neutral history that leaves its index
+// over-approximating (keys without entry): Permute(identity) rebuilds the index from all positions,
+// swapping an entry with an absent position twice leaves the key of the absent position behind.
+func operandHistory(o Vector, w []int, how int) {
+	switch how % 3 {
+	case 1:
+		id := make([]int, len(w))
+		for i := range id {
+			id[i] = i
+		}
+		if err := o.Permute(id); err != nil {
+			panic("Permute returned an error for the identity: " + err.Error())
+		}
+	case 2:
+		i, j := -1, -1
+		for k, x := range w {
+			if x != 0 && i < 0 {
+				i = k
+			}
+			if x == 0 && j < 0 {
+				j = k
+			}
+		}
+		if i >= 0 && j >= 0 {
+			o.Swap(i, j)
+			o.Swap(i, j)
+		}
+	}
+}
+
 func (c *vecCont) appendVector(w []int, how int) (cont, error) {
 	if how%3 == 2 { // operand of another vector type: the generic branch of AppendVector
 		return &vecCont{c.t, c.v.AppendVector(mkDense(c.t, w)), c.concrete}, nil
 	}
 	o := mkVector(c.t, w)
+	operandHistory(o, w, how/3)
 	if c.concrete {
 		if r, ok := c.call("APPEND", o); ok {
 			return &vecCont{c.t, r.Interface().(Vector), c.concrete}, nil
 		}
 	}
 	return &vecCont{c.t, c.v.AppendVector(o), c.concrete}, nil
+}
+
+func (c *vecCont) appendObj(w cont) (cont, error) {
+	o, ok := w.(*vecCont)
+	if !ok {
+		return nil, errUnsupported
+	}
+	if c.concrete && reflect.TypeOf(c.v) == reflect.TypeOf(o.v) {
+		if r, ok := c.call("APPEND", o.v); ok {
+			return &vecCont{c.t, r.Interface().(Vector), c.concrete}, nil
+		}
+	}
+	return &vecCont{c.t, c.v.AppendVector(o.v), c.concrete}, nil
+}
+func (c *vecCont) viewWalk(r0, r1, c0, c1, fi, fj, how int) ([][]int, error) {
+	return nil, errUnsupported
 }
 
 var concreteName = map[string]string{"vaddv": "VADDV", "vsubv": "VSUBV", "vmulv": "VMULV", "set": "SET",
@@ -573,6 +622,71 @@ func (c *matCont) slice(a, b int) (cont, error)              { return nil, errUn
 func (c *matCont) appendScalar(x, h int) (cont, error)       { return nil, errUnsupported }
 func (c *matCont) appendVector(w []int, h int) (cont, error) { return nil, errUnsupported }
 
+func (c *matCont) appendObj(w cont) (cont, error) { return nil, errUnsupported }
+
+// viewWalk iterates the view Slice(r0, r1, c0, c1) completely, starting at view position (fi, fj), and
+// returns <<i, j, value>> in view coordinates; the elements of the view are read as well (appended as
+// rows <<-1, i*vc+j, value>> so that the caller can compare them with the content restricted to the window).
+func (c *matCont) viewWalk(r0, r1, c0, c1, fi, fj, how int) ([][]int, error) {
+	var view ConstMatrix
+	var mview Matrix
+	if how%2 == 0 {
+		mview = c.m.Slice(r0, r1, c0, c1)
+		view = mview
+	} else {
+		view = c.m.ConstSlice(r0, r1, c0, c1)
+	}
+	if a, b := view.Dims(); a != r1-r0 || b != c1-c0 {
+		panic(fmt.Sprintf("view has dimensions %dx%d", a, b))
+	}
+	r := [][]int{}
+	add := func(i, j int, s ConstScalar) {
+		if s == nil || (reflect.ValueOf(s).Kind() == reflect.Ptr && reflect.ValueOf(s).IsNil()) {
+			panic(fmt.Sprintf("view iterator delivers no scalar at (%d,%d)", i, j))
+		}
+		r = append(r, []int{i, j, valOf(s)})
+		if len(r) > loopCap {
+			panic("iteration does not terminate")
+		}
+	}
+	switch {
+	case mview != nil && (how/2)%2 == 0 && fi == 0 && fj == 0:
+		for it := mview.Iterator(); it.Ok(); it.Next() {
+			i, j := it.Index()
+			add(i, j, it.Get())
+		}
+	case mview != nil && (how/2)%2 == 0:
+		for it := mview.IteratorFrom(fi, fj); it.Ok(); it.Next() {
+			i, j := it.Index()
+			add(i, j, it.Get())
+		}
+	case fi == 0 && fj == 0:
+		for it := view.ConstIterator(); it.Ok(); it.Next() {
+			i, j := it.Index()
+			add(i, j, it.GetConst())
+		}
+	default:
+		for it := view.ConstIteratorFrom(fi, fj); it.Ok(); it.Next() {
+			i, j := it.Index()
+			add(i, j, it.GetConst())
+		}
+	}
+	vc := c1 - c0
+	for i := 0; i < r1-r0; i++ {
+		for j := 0; j < vc; j++ {
+			x, ok := toInt(view.Float64At(i, j))
+			if !ok {
+				panic("non-integral element in view")
+			}
+			if y, _ := toInt(view.ConstAt(i, j).GetFloat64()); y != x {
+				panic("Float64At and ConstAt disagree on a view")
+			}
+			r = append(r, []int{-1, i*vc + j, x})
+		}
+	}
+	return r, nil
+}
+
 func (c *matCont) mk(w []int) Matrix {
 	o := NullSparseMatrix(c.t, c.rows, c.cols)
 	for i, x := range w {
@@ -682,6 +796,17 @@ func (c *matCont) private() (privState, bool) {
 	// f is an unexported pointer field: rebuild an ordinary pointer value of the same type
 	p := reflect.NewAt(f.Type().Elem(), unsafe.Pointer(f.Pointer()))
 	return vectorPrivate(p.Interface())
+}
+
+// newOperand creates vector 2: same type, another sparse element type, or a dense vector of the same element type
+func newOperand(in inst, other inst, flavour, n int, concrete bool) cont {
+	switch flavour {
+	case 1:
+		return &vecCont{other.T, NullSparseVector(other.T, n), false}
+	case 2:
+		return &vecCont{in.T, NullDenseVector(in.T, n), false}
+	}
+	return &vecCont{in.T, NullSparseVector(in.T, n), concrete}
 }
 
 func newCont(in inst, kind string, n, rows, cols int, concrete bool) cont {
